@@ -460,6 +460,10 @@ fn commit(acc: &mut C16Access, i: usize, source: &str, module: &ModName, old_tex
   let tag = cause_tag(old_text, class);
   let old_had_syntax_errors = parse(old_text, None).syntax_errors > 0;
   let import_errors_before = acc.resolve(module).map(|mr| import_related_errors(acc, &mr, class, old_text)).unwrap_or_default();
+  // the collision part of clause (vi) only speaks about a class that was available *and working*
+  // before the edit; a class the module reported as unresolved (the quick-fix case, e.g. a broken
+  // import of the same name) is outside it
+  let was_unresolved_before = acc.resolve(module).map(|mr| unresolved(acc, &mr).iter().any(|(_, n)| n == class)).unwrap_or(false);
   let new_text_copy = new_text.clone();
   if !acc.send_update(i, module, new_text) {
     return;
@@ -478,6 +482,9 @@ fn commit(acc: &mut C16Access, i: usize, source: &str, module: &ModName, old_tex
   // (vi) the import itself must work: no new collision / missing-export / missing-module error
   if let Some(mr) = acc.resolve(module) {
     for (kind, text) in import_related_errors(acc, &mr, class, &new_text_copy) {
+      if kind == "NameAlreadyBound" && was_unresolved_before {
+        continue;
+      }
       if !import_errors_before.iter().any(|(k, t)| *k == kind && *t == text) {
         acc.violation(
           i,
